@@ -189,6 +189,13 @@ def gen_spec(rng, variant=None, **kw):
             s.pop('coating', None)
         spec['c13'] = {'polarization': rng.choice(['H', 'V', 'L+45', 'RCP', 'unpolarized']),
                        'fresnel': rng.random() < 0.7}
+    # fields are not always entered in ascending order (a call that sorts the lens' own field list, or relies
+    # on its order, must show up)
+    if len(spec['fields']) > 1 and rng.random() < 0.6:
+        f = list(spec['fields'])
+        f = f[::-1] if rng.random() < 0.5 or len(f) == 2 else [f[1], f[-1], f[0]] + f[2:-1]
+        spec['fields'] = f
+        spec['fields_order'] = 'not ascending'
     spec['variant'] = variant
     return spec
 
